@@ -146,7 +146,7 @@ class FirebirdConnection(DBAPI):
         'skip', respectively) statement right after the select."""
         if not start:
             limit_str = "SELECT FIRST %i" % end
-        if not end:
+        if end is None:
             limit_str = "SELECT SKIP %i" % start
         else:
             limit_str = "SELECT FIRST %i SKIP %i" % (end - start, start)
